@@ -69,12 +69,22 @@ ForeignKinds == {"empty", "text", "mpegts", "plainmp4", "zeros4k", "ftyponly", "
 \* the corrupted file stands alone, or between two good segments of the same stream
 Neighbours == {"alone", "between"}
 
+\* directory content = two or three files written by the recorder whose headers are valid one by
+\* one but do not fit each other: the file after the first one
+Inconsistencies == {"extra_track", "missing_track", "codec", "timescale"}
+\* ... while its mtxi box says that it continues the first file (same stream id, number + 1), says
+\* that it does not, is absent, or is absent in both files (legacy concatenation by time and tracks)
+MtxiRelations == {"continuing", "not_continuing", "absent", "absent_both"}
+PairShapes == { [kind |-> "pair", incons |-> i, mtxi |-> m, files |-> n] :
+                  i \in Inconsistencies, m \in MtxiRelations, n \in {2, 3} }
+
 VARIABLES cdone
 CorruptInit == Init /\ cdone = FALSE
 CorruptNext == ~cdone /\ cdone' = TRUE /\ UNCHANGED vars
 CorruptSpec == CorruptInit /\ [][CorruptNext]_<<cdone, vars>>
 EmitShapes ==
     cdone =>
+      /\ \A sh \in PairShapes : Emit("SHAPE", [sh |-> sh, nb |-> "pair"])
       /\ \A sh \in FieldShapes : ValidFieldShape(sh) => \A nb \in Neighbours : Emit("SHAPE", [sh |-> sh, nb |-> nb])
       /\ \A sh \in StructShapes : ValidStructShape(sh) => \A nb \in Neighbours : Emit("SHAPE", [sh |-> sh, nb |-> nb])
       /\ \A fk \in ForeignKinds : \A nb \in Neighbours :
